@@ -198,13 +198,21 @@ func setupPeDigest(name string, hash crypto.Hash, doPageHash bool) (io.WriteClos
 	r, w := io.Pipe()
 	ch := make(chan peDigestResult, 1)
 	go func() {
+		var res peDigestResult
+		defer func() {
+			// a malformed PE must fail this request, not crash the whole process
+			if v := recover(); v != nil {
+				res = peDigestResult{nil, fmt.Errorf("failed to update CodeIntegrity catalog for %s: %v", name, v)}
+			}
+			ch <- res
+			_ = r.CloseWithError(res.err)
+			close(ch)
+		}()
 		digest, err := authenticode.DigestPE(r, hash, doPageHash)
 		if err != nil {
 			err = fmt.Errorf("failed to update CodeIntegrity catalog for %s: %w", name, err)
 		}
-		ch <- peDigestResult{digest, err}
-		_ = r.CloseWithError(err)
-		close(ch)
+		res = peDigestResult{digest, err}
 	}()
 	return w, ch
 }
